@@ -15,6 +15,9 @@ class SHACryptInfo:
     hash: str
 
     def as_str(self):
+        if self.rounds is None:
+            # rounds field omitted: implicit default (5000)
+            return f"{self._prefix}{self.salt}${self.hash}"
         return f"{self._prefix}rounds={self.rounds}${self.salt}${self.hash}"
 
     @property
